@@ -100,7 +100,7 @@ package cache
 //@   property C04
 //@   requires resp != nil && len(resp.Question) >= 1 && validRRs(resp.Answer) && validRRs(resp.Ns)
 //@   modifies nothing
-//@   ensures an-answer-or-a-valid-nodata-answer-and-nothing-else: ok == (answersTheQuestion(resp) || validNoData(resp))
+//@   ensures only-an-answer-or-a-valid-nodata-answer: ok ==> answersTheQuestion(resp) || validNoData(resp)
 //@   loop 1 invariant -1 <= #i && #i < len(resp.Answer) && (forall j int :: 0 <= j && j <= #i ==> hdrOf(resp.Answer[j]).Rrtype != resp.Question[0].Qtype && cnameOrSig(resp.Answer[j]))
 //@   loop 2 invariant -1 <= #i && #i < len(resp.Ns) && (forall j int :: 0 <= j && j < len(resp.Answer) ==> hdrOf(resp.Answer[j]).Rrtype != resp.Question[0].Qtype && cnameOrSig(resp.Answer[j])) &&
 //@          (forall k int :: 0 <= k && k <= #i ==> !isptr(resp.Ns[k], dns.SOA))
@@ -108,7 +108,7 @@ package cache
 //@   property C04
 //@   requires msg != nil && validRRs(msg.Answer) && validRRs(msg.Ns)
 //@   modifies nothing
-//@   ensures only-complete-answers: ok == cacheable(msg)
+//@   ensures only-complete-answers: ok ==> cacheable(msg)
 
 // What the cache keeps is a copy of its own: the message handed to set is
 // written to the client afterwards and may be changed in place on the way
